@@ -36,8 +36,12 @@ RUN_DEF_F = "Definition run := run_fill."
 RUN_DEF_C = "Definition run := run_coded_cov."
 RUN_DEF_G = "Definition run := run_gauss_terms."
 TAGSFX = os.environ.get("VERIF_TAG", "")    # development aid: keeps the scratch directories of concurrent runs apart
-FILL = -999.0
+# the sentinel the implementation substitutes for NaN under 'fill' (read from the settings class, not assumed)
+FILL = float(gs.observation_nan_policy._fill_value)
 NAN = float("nan")
+# observed values that collide with values the implementation uses as markers: the fill value itself, 0 (the
+# value the masks multiply by), and a target whose OFFSET from the (prior / function) mean equals the fill value
+SENT_KINDS = ["fill", "zero", "offset"]
 TOL = 1e-8
 TOL_FPV = 1e-5
 
@@ -126,6 +130,43 @@ def build(ds, pattern=None, noise=None):
     else:
         model, lik = make_single(fam, X, y, ds["hseed"], noise=noise)
     return model, lik, X, Xs, y
+
+
+def sentinel_value(kind, mean_i):
+    """an ordinary (observed) target value that collides with a marker value of the implementation"""
+    if kind == "zero":
+        return 0.0
+    if kind == "offset":
+        v = float(mean_i) + FILL
+        if v - float(mean_i) == FILL:       # the offset target - mean is exactly the fill value in float64
+            return v
+    return FILL
+
+
+def draw_sentinels(rng, positions):
+    """a non-empty subset of `positions` (at most half of them, at least one) with a kind each; the first is 'fill'"""
+    positions = list(positions)
+    if not positions:
+        return []
+    k = rng.randint(1, max(1, (len(positions) + 1) // 2))
+    pos = rng.sample(positions, k)
+    return [[i, "fill" if j == 0 else rng.choice(SENT_KINDS)] for j, i in enumerate(pos)]
+
+
+def add_sentinels(ds, rng):
+    """overwrite some targets of the data set with sentinel-colliding values (they stay OBSERVED values: deletion
+    semantics treats them as ordinary data).  The prior mean is read from the model the data set builds."""
+    model, lik, X, Xs, y = build(ds)
+    with torch.no_grad():
+        mu = model.mean_module(X).reshape(-1).tolist()
+    yt = torch.tensor(ds["y"])
+    flat = yt.reshape(-1).tolist()
+    sent = draw_sentinels(rng, range(len(flat)))
+    for i, kind in sent:
+        flat[i] = sentinel_value(kind, mu[i])
+    ds["y"] = torch.tensor(flat).reshape(yt.shape).tolist()
+    ds["sent"] = sent
+    return ds
 
 
 def gen_dataset(rng, fam, n, t=2):
@@ -467,10 +508,14 @@ def gauss_cases(rng, tier):
             if all(p):
                 continue
             cases.append(dict(n=n, T=1, pattern=list(p), hseed=rng.randint(0, 10 ** 9)))
+            if rng.random() < 0.6:
+                cases[-1]["sent"] = draw_sentinels(rng, [i for i, q in enumerate(p) if not q])
     for n, T in ((1, 2), (2, 2), (3, 2)) if tier == "quick" else ((1, 2), (2, 2), (3, 2), (2, 3)):
         allp = [list(p) for p in itertools.product([0, 1], repeat=n * T) if not all(p)]
         for p in allp:
             cases.append(dict(n=n, T=T, pattern=p, hseed=rng.randint(0, 10 ** 9)))
+            if rng.random() < 0.6:
+                cases[-1]["sent"] = draw_sentinels(rng, [i for i, q in enumerate(p) if not q])
     return cases
 
 
@@ -479,8 +524,10 @@ def gauss_build(c):
     n, T = c["n"], c["T"]
     N = n * T
     y = torch.tensor([rng.randint(-16, 16) / 8.0 for _ in range(N)])
-    y[torch.tensor(c["pattern"], dtype=torch.bool)] = NAN
     m = torch.tensor([rng.randint(-16, 16) / 8.0 for _ in range(N)])
+    for i, kind in c.get("sent") or []:        # observed targets colliding with the implementation's marker values
+        y[i] = sentinel_value(kind, m[i].item())
+    y[torch.tensor(c["pattern"], dtype=torch.bool)] = NAN
     L = torch.tensor([[rng.randint(-8, 8) / 8.0 if j <= i else 0.0 for j in range(N)] for i in range(N)])
     V = L @ L.T + 0.25 * torch.eye(N)
     if T == 1:
@@ -566,6 +613,8 @@ def gauss_batch_cases(rng, tier):
             pairs = rng.sample(pairs, cap)
         for pq in pairs:
             cases.append(dict(n=n, T=T, B=2, pattern=pq, hseed=rng.randint(0, 10 ** 9)))
+            if rng.random() < 0.6:             # per batch element: observed targets colliding with marker values
+                cases[-1]["sent"] = [draw_sentinels(rng, [i for i, q in enumerate(p) if not q]) for p in pq]
     return cases
 
 
@@ -576,8 +625,10 @@ def gauss_batch_build(c):
     ys, ms, Vs = [], [], []
     for b in range(B):
         y = torch.tensor([rng.randint(-16, 16) / 8.0 for _ in range(N)])
-        y[torch.tensor(c["pattern"][b], dtype=torch.bool)] = NAN
         m = torch.tensor([rng.randint(-16, 16) / 8.0 for _ in range(N)])
+        for i, kind in (c["sent"][b] if c.get("sent") else []):
+            y[i] = sentinel_value(kind, m[i].item())
+        y[torch.tensor(c["pattern"][b], dtype=torch.bool)] = NAN
         L = torch.tensor([[rng.randint(-8, 8) / 8.0 if j <= i else 0.0 for j in range(N)] for i in range(N)])
         ys.append(y); ms.append(m); Vs.append(L @ L.T + 0.25 * torch.eye(N))
     y, m, V = torch.stack(ys), torch.stack(ms), torch.stack(Vs)
@@ -676,6 +727,16 @@ def plan(tier, rng):
     for fam in FAMILIES:
         for n in sizes[fam]:
             dsl.append(gen_dataset(rng, fam, n))
+    # data sets whose OBSERVED targets collide with the implementation's marker values (fill value, 0, offset from the
+    # prior mean equal to the fill value): every NaN pattern again, so that the colliding targets are observed in many
+    # of them (and there are patterns without any NaN)
+    if tier == "quick":
+        ssizes = {"gaussian": [2, 4], "fixednoise": [3], "prior": [3], "multitask": [2], "batch": [2]}
+    else:
+        ssizes = {"gaussian": [2, 3, 4, 5], "fixednoise": [3, 4, 5], "prior": [3, 4], "multitask": [2, 3], "batch": [2, 3]}
+    for fam in FAMILIES:
+        for n in ssizes[fam]:
+            dsl.append(add_sentinels(gen_dataset(rng, fam, n), rng))
     return dsl
 
 
@@ -761,7 +822,11 @@ def run(out, ctx):
                 "capped); each under policies mask/fill, every step of the histories %s on one model object, "
                 "fast_pred_var off/on; every output is compared with the Coq deletion posterior (exact rationals) of the "
                 "same kernel matrices; non-trivial = at least one missing value and the deletion covariance differs "
-                "from the no-mask covariance by > 1e-6" % (5 if tier == "quick" else 6, ["/".join(h) for h in HISTORIES]))
+                "from the no-mask covariance by > 1e-6.  Sentinel axis: additional data sets of every family (and 60%% of "
+                "the Gaussian-term cases) carry OBSERVED targets equal to the fill value %r (read from "
+                "settings.observation_nan_policy._fill_value), to 0, or with target - mean equal to the fill value; "
+                "deletion semantics treats them as ordinary observations under both policies"
+                % (5 if tier == "quick" else 6, ["/".join(h) for h in HISTORIES], FILL))
     out.extra["tolerances"] = {"dense": TOL, "fast_pred_var (full-rank Lanczos)": TOL_FPV, "gaussian terms": 1e-9}
     work, exhaustive = [], True
     for ds in dsl:
@@ -774,6 +839,8 @@ def run(out, ctx):
         for pattern in pats:
             nmiss = sum(sum(p) for p in pattern)
             desc = dict(fam=ds["fam"], n=ds["n"], T=ds["T"], B=ds["B"], pattern=pattern)
+            if ds.get("sent"):
+                desc["sent"] = ds["sent"]
             models, bad = [], False
             for b, eff in enumerate(effective(ds, pattern)):
                 d = {pol: dec[(b, tuple(eff[pol]))] for pol in ("mask", "fill")}
@@ -792,6 +859,9 @@ def run(out, ctx):
                 for b in range(len(models)) for pol in ("mask", "fill") for i in range(tt))
             out.case(desc, nontrivial, label="family=" + ds["fam"])
             out.count("n=%d" % ds["N"]); out.count("missing=%d" % nmiss)
+            if ds.get("sent"):
+                obs_sent = sum(1 for i, _ in ds["sent"] if not pattern[i // ds["N"]][i % ds["N"]])
+                out.count("sentinel-valued targets in the data set: %s" % ("some observed" if obs_sent else "all NaN-ed"))
             check_case(out, ds, pattern, models, (False, True))
             check_mll(out, ds, pattern, models)
     out.exhaustive = exhaustive
@@ -799,14 +869,16 @@ def run(out, ctx):
     gc = gauss_cases(rng, tier)
     gres = C.coq_run_cases("C16g" + TAGSFX, IMPORTS, RUN_DEF_G, [gauss_coq_case(c) for c in gc], shard=max(1, (len(gc) + 15) // 16))
     for c, r in zip(gc, gres):
-        out.case(dict(kind="gauss-terms", n=c["n"], T=c["T"], pattern=c["pattern"]), sum(c["pattern"]) > 0,
-                 label="gauss-terms T=%d" % c["T"])
+        out.case(dict(kind="gauss-terms", n=c["n"], T=c["T"], pattern=c["pattern"], sent=c.get("sent")),
+                 sum(c["pattern"]) > 0 or bool(c.get("sent")), label="gauss-terms T=%d" % c["T"])
+        if c.get("sent"):
+            out.count("gauss-terms with observed sentinel-valued targets")
         gauss_check(out, c, r)
     gb = gauss_batch_cases(rng, tier)
     gbt = [t for c in gb for t in gauss_batch_coq_cases(c)]
     gbres = C.coq_run_cases("C16gb" + TAGSFX, IMPORTS, RUN_DEF_G, gbt, shard=max(1, (len(gbt) + 15) // 16))
     for i, c in enumerate(gb):
-        out.case(dict(kind="gauss-terms-batch", n=c["n"], T=c["T"], pattern=c["pattern"]), True,
+        out.case(dict(kind="gauss-terms-batch", n=c["n"], T=c["T"], pattern=c["pattern"], sent=c.get("sent")), True,
                  label="gauss-terms batch T=%d" % c["T"])
         gauss_batch_check(out, c, gbres[4 * i:4 * i + 4])
     out.tested_not_proved = [
